@@ -15,8 +15,9 @@
 (*                                                                                                *)
 (* Fixed = the defects modelled as repaired.  The registered model-checking run uses the repaired  *)
 (* model (all of them); runs with one defect left in are expected to VIOLATE the contract - they    *)
-(* are the design-level leads which the harness reproduces on the real code ("CLONE" is a negative  *)
-(* control: the pinned code does copy the header of a cache entry).                                 *)
+(* are the design-level leads which the harness reproduces on the real code ("CLONE" and "MULTI"   *)
+(* are negative controls: the pinned code does copy the header of a cache entry, and its gunzip     *)
+(* reader reads every member of a gzip body).                                                       *)
 EXTENDS ProxyMsgDefs
 
 CONSTANTS Fixed,      \* subset of AllFixed
@@ -47,7 +48,7 @@ Step(from, to, msg) == pc = from /\ pc' = to /\ m' = msg /\ UNCHANGED <<dir, rs,
 
 ClientSend      == Step("ClientSend", "MuxFetch", ClientReq(rs))
 MuxFetch        == Step("MuxFetch", "ReqAdaptor", S_Server(m, rs))
-ReqAdaptor      == Step("ReqAdaptor", "ProxyPrepare", S_ReqAdaptor(m, rs))
+ReqAdaptor      == Step("ReqAdaptor", "ProxyPrepare", S_ReqAdaptor(m, rs, Fixed))
 (* one attempt of ServerPool.doHandle: prepareRequest + send.  A URL that does not parse fails every
    attempt the same way (500 built by the pool, nothing is sent).  The first rs.fails attempts are
    answered with a failure by the backend and the retry wrapper calls the handler again. *)
@@ -115,5 +116,5 @@ HitLikeMiss   == Done /\ hit => X.cr = RunResp(ps, Fixed)
    vector generator (ProxyMsg_Gen) uses *)
 Composed      == Done => X = ExchangeK(rs, ps, Fixed, k)
 
-AllFixed == {"F5", "F6", "F7", "HEAD", "METRIC", "ABORT", "CLONE"}
+AllFixed == {"F5", "F6", "F7", "HEAD", "METRIC", "ABORT", "CLONE", "MULTI"}
 =============================================================================
